@@ -417,8 +417,11 @@ class Rule(object):
 
     def _validate_float_range_content(self, node: Node, minmax, errs: list = None):
         self._validate_float_content(node, errs)
+        if not Rule.is_float(node.content):
+            # no value to range-check: empty content is left to nonEmptyContent, a non-float was reported above
+            return
         float_val = float(node.content)
-        if float_val < minmax[0] or float_val > minmax[1]:
+        if not (minmax[0] <= float_val <= minmax[1]):
             msg = f'Node "{node.name}" content should be in range {minmax}'
             if errs is None:
                 raise MetapypeRuleError(msg)
@@ -438,8 +441,11 @@ class Rule(object):
         self, node: Node, errs: list = None
     ):
         self._validate_float_content(node, errs)
+        if not Rule.is_float(node.content):
+            # no value to range-check: empty content is left to nonEmptyContent, a non-float was reported above
+            return
         float_val = float(node.content)
-        if float_val < 0:
+        if not (float_val >= 0):
             msg = f'Node "{node.name}" content should be non-negative'
             if errs is None:
                 raise MetapypeRuleError(msg)
